@@ -467,6 +467,24 @@ Fixpoint refreshes (z : zone) (tables : list (list (option Z * list wmsg)))
       end
   end.
 
+(* dns.query.inbound_xfr(where, txn_manager, query=None, udp_mode=...): the query is made from the
+   zone; an IXFR is first tried over UDP unless udp_mode is NEVER (0); UseTCP falls back to TCP
+   for TRY_FIRST (1) and propagates for ONLY (2); any other outcome of the UDP attempt is final *)
+Definition xfr_top (z : zone) (mode : Z) (tbu tbt : list (option Z * list wmsg)) : res (Z * zone) :=
+  do q <- make_query (zone_serial z) (Some 0);
+  let '(qt, s) := q in
+  let tcp (_ : unit) : res (Z * zone) :=
+    let '(r, _) := inbound_xfr z qt s false (pick tbt s) in Ok (result_code r, result_zone r) in
+  if (qt =? tIXFR) && negb (mode =? 0) then
+    let '(r, _) := inbound_xfr z qt s true (pick tbu s) in
+    match r with
+    | Done z' => Ok (0, z')
+    | Error e z' =>
+        if e =? eUseTCP then (if mode =? 2 then Ok (eUseTCP, z') else tcp Datatypes.tt)
+        else Ok (e, z')
+    end
+  else tcp Datatypes.tt.
+
 (* ---- obs interface ---- *)
 Fixpoint zs_of_obs (l : list obs) : option (list Z) :=
   match l with
@@ -684,6 +702,17 @@ Definition run (c : obs) : obs :=
                            | Internal e => E e
                            end) (refreshes z ts))
       | _, _ => E eBadCase
+      end
+  (* 8: dns.query.inbound_xfr against a server.  [8; zone kind; relativize; udp_mode; zone; udp table; tcp table; target] *)
+  | L (I 8 :: I _ :: I _ :: I mode :: L z :: L otu :: L ott :: _) =>
+      match zone_of_obs z, table_of_obs otu, table_of_obs ott with
+      | Some z, Some tbu, Some tbt =>
+          match xfr_top z mode tbu tbt with
+          | Ok (c, z') => L [I c; obs_of_zone z']
+          | Lib e => E e
+          | Internal e => E e
+          end
+      | _, _, _ => E eBadCase
       end
   | _ => E eBadCase
   end.
